@@ -1,7 +1,7 @@
 """C09 — coroutine lifecycle: state, kill, restart and promise are coherent (spec/Coroutines.tla)."""
 from . import coroutines_common as cc
 
-BASE = dict(WithKill=True, StartCancelsPendingKill=True, FinishDropsKillMark=True)
+BASE = dict(WithKill=True, StartCancelsPendingKill=True, FinishDropsKillMark=True, BodyExceptionCleansUp=True)
 
 
 def run(res):
